@@ -44,7 +44,9 @@ pub fn exec(v: &Value) -> Result<Value> {
 		},
 		"diff" => {
 			let a: Mappings<2, Ns> = json_to_tree(&v["A"])?;
-			let b: Mappings<2, Ns> = json_to_tree(&v["B"])?;
+			// revB: B's entries inserted in the opposite order (a mapping set is a partial function, the diff does not depend on it)
+			let rev = v["revB"].as_bool().unwrap_or(false);
+			let b: Mappings<2, Ns> = json_to_tree_ord(&v["B"], &mut |n| if rev { Some((0..n).rev().collect()) } else { None })?;
 			let ns = t_ns(&v["A"]);
 			match MappingsDiff::diff(&a, &b) {
 				Ok(d) => res_tree(d.apply_to::<2, Ns, Ns>(a, &ns)),
@@ -83,7 +85,7 @@ pub fn gen(seed: u64, n: usize) -> Result<Vec<Value>> {
 		let mut b = if r.gen_bool(0.1) { gen_tree(&mut r, &cfg) } else { a.clone() };
 		let unname = r.gen_bool(0.15);
 		for _ in 0..r.gen_range(0..4) { edit_tree(&mut r, &cfg, &mut b, 1, unname); }
-		out.push(json!({"op": "diff", "A": a, "B": b}));
+		out.push(json!({"op": "diff", "A": a, "B": b, "revB": r.gen_bool(0.5)}));
 		// the real diff, possibly corrupted, applied to A or to a drifted target
 		let (am, bm): (Mappings<2, Ns>, Mappings<2, Ns>) = (json_to_tree(&a)?, json_to_tree(&b)?);
 		if let Ok(d) = MappingsDiff::diff(&am, &bm) {
